@@ -124,6 +124,9 @@ func main() {
 			os.Exit(2)
 		}
 		x := p.NewExec(nil)
+		if os.Getenv("DUMP_POLICY") == "radix" {
+			x = p.NewExec(p.RadixPolicy)
+		}
 		paths := x.Summarize(fn)
 		for i, pa := range paths {
 			fmt.Printf("--- path %d [%s→%s pre=%d] blocks=%v\n", i, pa.Start, pa.End, pa.Pre, pa.Blocks)
